@@ -9,6 +9,7 @@
   * denormalize_flow factors for both align_corners conventions on a concrete (5, 7, 9) grid.
 """
 import itertools
+from fractions import Fraction
 
 import numpy as np
 
@@ -315,8 +316,10 @@ def generate(loader):
         def __init__(self, ac):
             self._ac = ac
 
+        shape = st.Size((9, 7, 5))       # (Z, Y, X) of size (x, y, z) = (5, 7, 9)
+
         def coords(self, dtype=None, device=None):
-            return st.zeros(2, 2, 2, 3)
+            return st.zeros(9, 7, 5, 3)
 
         def align_corners(self):
             return self._ac
@@ -354,7 +357,14 @@ def generate(loader):
                 if any(f is not ac for f in seen_flags):
                     raise TraceError("inverse_consistency_loss does not pass the grid's align_corners to transform_grid/transform_points")
                 del seen_flags[:]
-            # reductions: 'sum' is the sum and 'mean' the mean of 'none' (8 grid points with the same error)
+            # margin: an int drops that many points at each border of every axis, a float fraction f drops
+            # int(f * n) points of the axis with n points (sizes are (x, y, z) = (5, 7, 9), tensors (Z, Y, X))
+            for mg, want_shape in ((1, (1, 7, 5, 3)), (2, (1, 5, 3, 1)), (0.3, (1, 5, 3, 3))):
+                rm = L.inverse_consistency_loss(fwd, fwd, grid=_Grid(ac), margin=mg, units="cube", reduction="none")
+                if tuple(rm.a.shape) != want_shape:
+                    raise TraceError(f"inverse_consistency_loss(margin={mg}) has shape {tuple(rm.a.shape)}, expected {want_shape}")
+            del seen_flags[:]
+            # reductions: 'sum' is the sum and 'mean' the mean of 'none' (all grid points carry the same error)
             n_ = L.inverse_consistency_loss(fwd, fwd, grid=_Grid(ac), units="cube", reduction="none").a.reshape(-1)
             s_ = L.inverse_consistency_loss(fwd, fwd, grid=_Grid(ac), units="cube", reduction="sum").a.reshape(-1)[0]
             m_ = L.inverse_consistency_loss(fwd, fwd, grid=_Grid(ac), units="cube", reduction="mean").a.reshape(-1)[0]
@@ -366,7 +376,59 @@ def generate(loader):
             del seen_flags[:]
     finally:
         L.transform_grid, L.transform_points = olds
+    # ---- module wrappers (losses/flow.py, losses/bspline.py): every constructor option reaches the functional form ---
+    MFm = loader.load("deepali.losses.flow")
+    MBm = loader.load("deepali.losses.bspline")
+    fnames = ("grad_loss", "bending_loss", "curvature_loss", "diffusion_loss", "divergence_loss", "elasticity_loss",
+              "total_variation_loss")
+    saved_fns = {n: getattr(L, n) for n in fnames}
+    calls = []
+    for n in fnames:
+        setattr(L, n, (lambda name: (lambda u, **kw: calls.append((name, kw)) or u))(n))
+    mod_rows = []
+    try:
+        common = dict(mode="sobel", sigma=0.5, spacing=(1.5, 2.5), stride=3, reduction="sum")
+        u0 = st.zeros(1, 2, 2, 2)
+
+        def probe(tag, cls, ctor, want_fn, want):
+            del calls[:]
+            cls(**ctor).forward(u0)
+            if len(calls) != 1 or calls[0][0] != want_fn:
+                mod_rows.append((tag, f"calls {[c[0] for c in calls]}"))
+                return
+            got = calls[0][1]
+            bad = sorted(k for k in want if k not in got or got[k] != want[k])
+            mod_rows.append((tag, "ok" if not bad else "not passed: " + ", ".join(bad)))
+        for q_in, q_out in ((0, 0), (None, Fraction(1, 4)), (2, 2), (1, 1)):
+            def _q(v):
+                return Fraction(v).limit_denominator(1000) if v is not None else None
+            del calls[:]
+            MFm.GradLoss(p=4, q=q_in, **common).forward(u0)
+            got = calls[0][1] if len(calls) == 1 and calls[0][0] == "grad_loss" else {}
+            bad = sorted(k for k, v in dict(common, p=4).items() if got.get(k) != v)
+            if _q(got.get("q")) != _q(q_out):
+                bad.append(f"q (got {got.get('q')!r}, expected {q_out})")
+            mod_rows.append((f"GradLoss(p=4, q={q_in})", "ok" if not bad else "not passed: " + ", ".join(bad)))
+        for cname, fn_ in (("Bending", "bending_loss"), ("Curvature", "curvature_loss"), ("Diffusion", "diffusion_loss"),
+                           ("Divergence", "divergence_loss"), ("TotalVariation", "total_variation_loss")):
+            probe(cname, getattr(MFm, cname), common, fn_, common)
+        mats = dict(material_name=None, first_parameter=1.5, second_parameter=2.5, shear_modulus=None, poissons_ratio=None, youngs_modulus=None)
+        probe("Elasticity(first, second)", MFm.Elasticity, dict(common, first_parameter=1.5, second_parameter=2.5), "elasticity_loss",
+              dict(common, **mats))
+        mats2 = dict(material_name=None, first_parameter=None, second_parameter=None, shear_modulus=0.75, poissons_ratio=0.25, youngs_modulus=None)
+        probe("Elasticity(shear, poisson)", MFm.Elasticity, dict(common, shear_modulus=0.75, poissons_ratio=0.25), "elasticity_loss",
+              dict(common, **mats2))
+        probe("Elasticity(material_name)", MFm.Elasticity, dict(common, material_name="rubber"), "elasticity_loss",
+              dict(common, material_name="rubber"))
+        probe("BSplineBending", MBm.BSplineBending, dict(stride=3, reduction="sum"), "bending_loss",
+              dict(mode="bspline", stride=3, reduction="sum"))
+    finally:
+        for n, f_ in saved_fns.items():
+            setattr(L, n, f_)
     out.append("End Gen.\n")
+    rows = ";\n".join(f'  ("{t}"%string, "{k}"%string)' for t, k in mod_rows)
+    out.append(f"(* module wrappers: does forward() hand every constructor option to the functional form? *)\n"
+               f"Definition gen_flow_module_options : list (string * string) := [\n{rows}].\n")
     rows = ";\n".join(f'  ("{t}"%string, "{k}"%string)' for t, k in table)
     out.append(f"Definition gen_lame_table : list (string * string) := [\n{rows}].\n")
     return "\n".join(out)
